@@ -300,6 +300,29 @@ def c19(ctx, finish):
                 elif v.get("accepted"):
                     ctx.traces += len(res)
                 else:
+                    # Is this about two stores at all?  Run the same store with the same programs alone: if its
+                    # log cannot be explained either, the deviation is a single-store matter (some other property).
+                    alone = None
+                    try:
+                        first = json.loads(open(proj).readline())
+                        runs_proj = [json.loads(l) for l in open(proj) if '"reset"' in l]
+                        bad_prog = None
+                        for rr_ in runs_proj:
+                            if rr_["d"]["id"] == v.get("run"):
+                                bad_prog = rr_["d"]["prog"]
+                        if bad_prog is not None:
+                            ix1 = dict(ix)
+                            d1 = tlc.workdir("c19alone")
+                            fr1, tr1 = pipeline.freerun(ix1, [bad_prog] * 60, d1, seed=ctx.seed)
+                            v1 = tracecheck.validate(ix1, tr1, d1, clients=["c1", "c2", "c3", "xA", "xB"], timeout=600)
+                            alone = bool(v1.get("accepted")) and all(x["outcome"] == "finished" for x in fr1)
+                            shutil.rmtree(d1, ignore_errors=True)
+                    except Exception as ex:  # noqa
+                        ctx.notes.append("single-store control run failed: %r" % ex)
+                    if alone is False:
+                        ctx.notes.append("store %s deviates from the specification also when it runs alone: not a matter of "
+                                         "independence (C19); event %s" % (key, json.dumps(v.get("event"))[:160]))
+                        continue
                     art = checkmain.save_artifact(ctx, "two_%d_%s" % (vi, key),
                                                   {"kind": "two-store run: the events of one store are not a behaviour of a store",
                                                    "store": key, "event": v.get("event"), "configs": doc["configs"],
